@@ -15,8 +15,8 @@ type Request struct {
 	GenerationID    int32               `kafka:"min=v0,max=v5|min=v4,max=v5,compact"`
 	MemberID        string              `kafka:"min=v0,max=v3|min=v4,max=v5,compact"`
 	GroupInstanceID string              `kafka:"min=v3,max=v3,nullable|min=v4,max=v5,nullable,compact"`
-	ProtocolType    string              `kafka:"min=v5,max=v5"`
-	ProtocolName    string              `kafka:"min=v5,max=v5"`
+	ProtocolType    string              `kafka:"min=v5,max=v5,nullable"`
+	ProtocolName    string              `kafka:"min=v5,max=v5,nullable"`
 	Assignments     []RequestAssignment `kafka:"min=v0,max=v5"`
 }
 
@@ -42,8 +42,8 @@ type Response struct {
 
 	ThrottleTimeMS int32  `kafka:"min=v1,max=v5"`
 	ErrorCode      int16  `kafka:"min=v0,max=v5"`
-	ProtocolType   string `kafka:"min=v5,max=v5"`
-	ProtocolName   string `kafka:"min=v5,max=v5"`
+	ProtocolType   string `kafka:"min=v5,max=v5,nullable"`
+	ProtocolName   string `kafka:"min=v5,max=v5,nullable"`
 	Assignments    []byte `kafka:"min=v0,max=v3|min=v4,max=v5,compact"`
 }
 
